@@ -166,7 +166,9 @@ pub fn worker<W: World>(a: &WorkerArgs) -> i32 {
                     .rotate_left(5)
                     .wrapping_add(ctx.log_hash() ^ i.wrapping_mul(0x9E37_79B9_7F4A_7C15));
                 if a.hashes {
-                    let _ = writeln!(out, "R {i} {:016x}", ctx.log_hash());
+                    // the hash covers the generated case (generator determinism) and the run's event log
+                    let case_hash = crate::prng::fnv1a(serde_json::to_string(&case).unwrap().as_bytes());
+                    let _ = writeln!(out, "R {i} {:016x}", ctx.log_hash() ^ case_hash.rotate_left(21));
                 }
                 let mut ctx = ctx;
                 if a.prop == "C07" {
